@@ -1,10 +1,12 @@
 (* C11 -- QS domain: callbacks run once, by the owner's run(), only after a full grace period, the
    node is not touched after its callback started, and no call blocks or stops on valid use.
-   Statements only; proofs are in Qs/QsWoProofs.v, Qs/QsWoGen.v (whole-operation granularity).
+   Statements only; proofs are in Qs/QsWoProofs.v, Qs/QsWoGen.v (whole-operation granularity) and
+   Qs/QsFgProofs.v, Qs/QsFgThms.v, Qs/QsFgGen.v (one atomic access or mutex call per step).
    Model: Qs/QsModel.v; source-derived facts: Gen/QsOrders.v (translator/gen_qs.py). *)
 From Coq Require Import List NArith Bool Arith.
 Import ListNotations.
-From FV Require Import Qs.QsTypes Qs.QsModel Qs.QsGenOk Qs.QsWoProofs Qs.QsWoGen.
+From FV Require Import Qs.QsTypes Qs.QsModel Qs.QsFgModel Qs.QsGenOk Qs.QsWoProofs Qs.QsWoGen
+  Qs.QsFgProofs Qs.QsFgThms Qs.QsFgGen.
 Local Open Scope N_scope.
 
 (* ---- generated obligations (recomputed from the current qs.hpp on every run) ---------------- *)
@@ -96,7 +98,121 @@ Theorem C11_no_deadlock_wholeop :
 Proof. intros U ND HB s tr Hr t c Ht. apply (gen_outcomes U ND HB s tr t c Hr Ht). Qed.
 Print Assumptions C11_no_deadlock_wholeop.
 
-(* ---- non-vacuity ---------------------------------------------------------------------------- *)
+(* ============================================================================================ *)
+(* Fine-grained granularity: one access to an atomic or one mutex call per step, a program counter
+   per thread, SC interleaving.  For every finite set U of threads (fewer than 2^32), every scripts
+   of API calls in which a node is passed to await_barrier by one agent only ([scripts_ok]), every
+   scheduler [sched : list tid].                                                                 *)
+(* ============================================================================================ *)
+
+(* A callback is invoked only by a step of run() ([PRun2]) of the thread that registered the node;
+   over the whole trace every callback is preceded by a registration of that node by that thread
+   with no other callback (or registration) of the node in between. *)
+Theorem C11_callback_once_by_owner :
+  forall U nown scripts sched s tr, NoDup U -> few U -> scripts_ok U nown scripts ->
+    gen_f_run sched (f0 scripts) [] = (s, tr) ->
+    (forall t s' evs op n t', gen_f_step t s = (s', evs, op) -> In (WCb n t') evs ->
+        t' = t /\ (exists c, tpc (fth s t) = PRun2 c) /\ fowner s n = Some t) /\
+    (forall a n t c, tr = a ++ WCb n t :: c -> exists a1 a2, a = a1 ++ WReg n t :: a2 /\ clean n a2).
+Proof.
+  intros U nown scripts sched s tr ND HB Hok Hrun.
+  pose proof (run_reach scripts sched s tr Hrun) as Hr. split.
+  - intros t s' evs op n t' H Hin.
+    destruct (fgen_grace U nown scripts ND HB Hok s tr t s' evs op n t' Hr H Hin) as (A & B & C & _). auto.
+  - intros a n t c E. apply (trace_callback_registered tr a n t c (reach_trace_ok U nown scripts ND HB Hok s tr Hr) E).
+Qed.
+Print Assumptions C11_callback_once_by_owner.
+
+(* At the callback step [waiting n] is empty: every agent that was online and outside
+   quiescent_state()/offline() when await_barrier loaded the counter has since entered one of them;
+   quiescent_barrier() returns only when the set formed at its first load is empty. *)
+Theorem C11_grace_period :
+  forall U nown scripts sched s tr, NoDup U -> few U -> scripts_ok U nown scripts ->
+    gen_f_run sched (f0 scripts) [] = (s, tr) ->
+    (forall t s' evs op n t', gen_f_step t s = (s', evs, op) -> In (WCb n t') evs ->
+        forall x, fwait s n x = false) /\
+    (forall t s' evs op t', gen_f_step t s = (s', evs, op) -> In (WQbRet t') evs ->
+        t' = t /\ forall x, fqbw s' t x = false).
+Proof.
+  intros U nown scripts sched s tr ND HB Hok Hrun.
+  pose proof (run_reach scripts sched s tr Hrun) as Hr. split.
+  - intros t s' evs op n t' H Hin.
+    destruct (fgen_grace U nown scripts ND HB Hok s tr t s' evs op n t' Hr H Hin) as (_ & _ & _ & D). exact D.
+  - intros t s' evs op t'. apply (fgen_qb_grace U nown scripts ND HB Hok s tr t s' evs op t' Hr).
+Qed.
+Print Assumptions C11_grace_period.
+
+(* The invariants behind it: J1-J3 (with the in-flight adjustments: [memb], [eack], [needs], the
+   virtual period [vctr]), J4 and the uniqueness of the restarting thread, K for both kinds of
+   waiting set, the structure of the pending lists -- in every reachable state that has not stopped. *)
+Theorem C11_invariants :
+  forall U nown scripts sched s tr, NoDup U -> few U -> scripts_ok U nown scripts ->
+    gen_f_run sched (f0 scripts) [] = (s, tr) -> fstop s = None -> FCore U nown s /\ FGhost nown s.
+Proof.
+  intros U nown scripts sched s tr ND HB Hok Hrun.
+  apply (reach_inv U nown scripts ND HB Hok s tr (run_reach scripts sched s tr Hrun)).
+Qed.
+Print Assumptions C11_invariants.
+
+(* The library touches a node only between its registration and the start of its callback. *)
+Theorem C11_node_untouched_after_callback :
+  forall U nown scripts sched s tr, NoDup U -> few U -> scripts_ok U nown scripts ->
+    gen_f_run sched (f0 scripts) [] = (s, tr) ->
+    trace_ok tr /\
+    (forall a n t b e c, tr = a ++ WCb n t :: b ++ e :: c ->
+        (e = WNode n \/ exists t2, e = WCb n t2) -> exists t', In (WReg n t') b).
+Proof.
+  intros U nown scripts sched s tr ND HB Hok Hrun.
+  pose proof (reach_trace_ok U nown scripts ND HB Hok s tr (run_reach scripts sched s tr Hrun)) as T.
+  split; [exact T|]. intros a n t b e c E He. apply (trace_after_callback tr a n t b e c T E He).
+Qed.
+Print Assumptions C11_node_untouched_after_callback.
+
+(* No deadlock: while the system has not stopped and some call is in flight or still to be made,
+   some thread can take a step that changes the state; a thread between calls does not hold the
+   mutex (every path of every call releases it); the system stops only in the assertions that guard
+   the documented preconditions (online when online: 102; offline/quiescent_state/quiescent_barrier
+   when offline: 124, 151; a node registered twice: 214) or in offline() of the agent holding a
+   deferred period (127, known finding D07) -- never in an internal assertion (114, 137, 154, 169),
+   never by unlocking a mutex that is not held. *)
+Theorem C11_no_deadlock :
+  forall U nown scripts sched s tr, NoDup U -> few U -> scripts_ok U nown scripts ->
+    gen_f_run sched (f0 scripts) [] = (s, tr) -> fstop s = None ->
+    ((exists t, tpc (fth s t) <> PIdle \/ tscript (fth s t) <> []) ->
+       exists t', fst (fst (gen_f_step t' s)) <> s) /\
+    (forall t, tpc (fth s t) = PIdle -> fmx s <> Some t) /\
+    (forall t s' evs op st, gen_f_step t s = (s', evs, op) -> fstop s' = Some st ->
+       exists l, st = StopAssert t l /\ In l [102; 124; 127; 151; 214]).
+Proof.
+  intros U nown scripts sched s tr ND HB Hok Hrun Hstop.
+  pose proof (run_reach scripts sched s tr Hrun) as Hr. split; [|split].
+  - apply (fgen_no_deadlock U nown scripts ND HB Hok s tr Hr Hstop).
+  - intros t. apply (fgen_mutex_released U nown scripts ND HB Hok s tr t Hr Hstop).
+  - intros t s' evs op st. apply (fgen_stops U nown scripts ND HB Hok s tr t s' evs op st Hr Hstop).
+Qed.
+Print Assumptions C11_no_deadlock.
+
+(* non-vacuity: two threads, a round-robin scheduler; thread 0's callback runs, a period is deferred *)
+Definition ex_scripts (t : tid) : list call :=
+  match t with
+  | 0%nat => [COnline; CQsCall; CAwait 0; CQsCall; CQsCall; CQsCall; CQsCall; CRun]
+  | 1%nat => [COnline; CQsCall; CQsCall; CQsCall; COffline]
+  | _ => [] end.
+Fixpoint round_robin (k : nat) : list tid := match k with O => [] | S k' => 0%nat :: 1%nat :: round_robin k' end.
+
+Example C11_example_fine_grained :
+  let '(s, tr) := gen_f_run (round_robin 60) (f0 ex_scripts) [] in
+  In (WCb 0 0) tr /\ fstop s = None /\ 3 <= ctr (fd s) /\
+  scripts_ok [0; 1]%nat (fun _ => 0%nat) ex_scripts /\ NoDup [0; 1]%nat /\ few [0; 1]%nat.
+Proof.
+  vm_compute. repeat split; try tauto; try discriminate.
+  - intros t H. destruct t as [|[|t]]; [tauto|tauto|reflexivity].
+  - intros t n H. destruct t as [|[|t]]; cbn in H; [reflexivity| |destruct H].
+    repeat (destruct H as [H|H]; [discriminate|]). destruct H.
+  - repeat constructor; cbn; intuition discriminate.
+Qed.
+
+(* ---- non-vacuity (whole-operation) ---- *)
 
 (* two agents; agent 0 defers a period, registers node 0, agent 1 joins while the barrier is pending,
    the deferred period is restarted, two more periods pass, agent 0's run() invokes the callback *)
